@@ -29,3 +29,23 @@ Print Assumptions C15_consulted.
 
 Example C15_example : first_or (occ_fwd [7; 7]%Z 0%Z ([1; 2; 7; 7; 3]%Z ++ [7; 7; 7; 9]%Z)) = 2%Z.
 Proof. vm_compute. reflexivity. Qed.
+
+(* the searches as streaming computations (FindStream.v): kmpKernel.Visit driven one digit at a time and stopped
+   once n matches have been reported returns exactly the first n occurrences, and the digits it has consumed end
+   with the last digit of the n-th occurrence; asked for 0 matches it consumes nothing; with fewer than n
+   occurrences it consumes the whole (finite) text.  With C15_consulted this is the bound of the statement. *)
+Require Import FindStream.
+Local Close Scope Z_scope.
+Theorem C15_stops_at_nth_match : forall pat lo w n, 1 <= length pat ->
+  exists c, stream_find pat lo w n = Some (firstn n (occ_fwd pat lo w), c) /\
+    c <= length w /\
+    (n = 0 -> c = 0) /\
+    (0 < n <= length (occ_fwd pat lo w) ->
+       (lo + Z.of_nat c = nth (n - 1) (occ_fwd pat lo w) (-1) + Z.of_nat (length pat))%Z) /\
+    (length (occ_fwd pat lo w) < n -> c = length w).
+Proof. exact stream_find_spec. Qed.
+Print Assumptions C15_stops_at_nth_match.
+
+Example C15_stream_example :
+  stream_find [7; 7]%Z 100%Z [1; 2; 7; 7; 3; 7; 7; 7; 9; 7; 7]%Z 2 = Some ([102; 105]%Z, 7).
+Proof. vm_compute. reflexivity. Qed.
